@@ -7,7 +7,8 @@ ID = "C11"
 RULE = (
     "random well-formed element trees (style tags i/em/b and block tags p/div/span/blockquote, depth <= 4; text alphabet "
     "upper-case/digits/space/punctuation disjoint from tag characters so the alignment is forced) x 1-5 spans over the "
-    "text content (token-aligned and arbitrary, overlapping, empty) x {skip, wrap}; before/after = <a id=\"k\"> / </a>. "
+    "text content (token-aligned and arbitrary, overlapping, empty) x {skip, wrap} x {fast_diff_match_patch, difflib} (a quarter of the trees over a repetitive "
+    "two-letter text so that the matching-block engine is left with text-against-tag replacements); before/after = <a id=\"k\"> / </a>. "
     "Oracle: lxml parses '<div>'+output+'</div>' (the judge eyecite itself uses); its text content equals the plain "
     "text; in wrap mode every requested annotation that is non-empty after clipping to earlier ones is present. "
     "Non-trivial: some span's source slice is unbalanced markup; distinct = distinct case"
@@ -77,8 +78,19 @@ def evaluate(case):
         return res
     mode = case["mode"]
     res.label("mode:" + mode)
+    if case.get("rep"):
+        res.label("repetitive-text")
+    if not case.get("dmp", True):
+        import difflib
+
+        ops = difflib.SequenceMatcher(a=plain, b=src, autojunk=False).get_opcodes()
+        if any(op == "replace" for op, *_ in ops):
+            res.label("difflib:text-against-tag-replacement")
+        if any(op == "replace" and a2 - a1 == b2 - b1 and any(a1 < x < a2 for sp in spans for x in sp) for op, a1, a2, b1, b2 in ops):
+            res.label("difflib:span-edge-inside-same-length-replacement")
     anns = [((a, b), f'<a id="{k}">', "</a>") for k, (a, b) in enumerate(spans)]
-    out = call(annotate_citations, plain, iter(anns) if case.get("iter") else anns, source_text=src, unbalanced_tags=mode)
+    out = call(annotate_citations, plain, iter(anns) if case.get("iter") else anns, source_text=src, unbalanced_tags=mode, use_dmp=case.get("dmp", True))
+    res.label("engine:" + ("dmp" if case.get("dmp", True) else "difflib"))
     if isinstance(out, Raised):
         res.v(f"raises[{mode}]:" + out.bucket(), f"{out!r} src={src!r} spans={spans}")
         return res
@@ -93,6 +105,14 @@ def evaluate(case):
         last = 0
         for (a, b), bf, af in sorted(anns):
             if a < last:
+                if not case.get("dmp", True):
+                    # The matching-block engine is not a minimal diff: it may treat the tail of the text as replaced by a
+                    # tag, and the part of an overlapping annotation that is left after clipping then has no image in the
+                    # source.  The statement promises presence for requested annotations, and eyecite documents that
+                    # overlapping ones are clipped or dropped; for this engine only annotations that do not overlap an
+                    # earlier one are required (under the exact alignment of the default engine the clipped remainder is too).
+                    last = max(last, b)
+                    continue
                 a = last
             if a >= b:
                 continue
@@ -112,17 +132,39 @@ def evaluate(case):
 
 _text = st.lists(st.sampled_from(TXT), min_size=1, max_size=8).map("".join)
 _long_text = st.lists(st.sampled_from(TXT), min_size=30, max_size=60).map("".join)
-_tree = st.recursive(
-    st.lists(_text, min_size=1, max_size=2),
-    lambda kids: st.lists(
-        st.one_of(_text, _text, st.tuples(st.sampled_from(STYLE + STYLE + BLOCK), kids).map(list)), min_size=1, max_size=4),
-    max_leaves=12,
-)
+
+
+def _mk_tree(text):
+    return st.recursive(
+        st.lists(text, min_size=1, max_size=2),
+        lambda kids: st.lists(
+            st.one_of(text, text, st.tuples(st.sampled_from(STYLE + STYLE + BLOCK), kids).map(list)), min_size=1, max_size=4),
+        max_leaves=12,
+    )
+
+
+_tree = _mk_tree(_text)
+# repetitive text (two-letter alphabet, repeated blocks): the matching-block engine aligns a repeated block with a
+# later copy and is left with text-against-tag replacements
+_rep_text = st.one_of(st.lists(st.sampled_from("AB"), min_size=1, max_size=8).map("".join),
+                      st.sampled_from(["ABCD", "ABCDABCD", "AB", "ABAB", "A A ", "1 U.S. 1"]))
+_rep_tree = _mk_tree(_rep_text)
 
 
 @st.composite
 def _case(draw, mode):
-    tree = draw(_tree)
+    rep = draw(st.integers(0, 3)) == 0
+    tree = draw(_rep_tree if rep else _tree)
+    crafted = draw(st.integers(0, 9)) == 0
+    if crafted:
+        # W <T> W W </T> with |W| = len("</T>"): the matching-block engine aligns the leading "WW" of the text with the
+        # element's content and is left with the last W against the closing tag - a replacement of equal lengths
+        tag = draw(st.sampled_from(STYLE + BLOCK))
+        w = "".join(draw(st.lists(st.sampled_from("ABCD 1."), min_size=len(tag) + 3, max_size=len(tag) + 3)))
+        core = [w, [tag, [w * draw(st.sampled_from([2, 2, 3]))]]]
+        shape = draw(st.integers(0, 3))
+        tree = core if shape == 0 else [["div", core]] if shape == 1 else list(tree[:1]) + core if shape == 2 else core + list(tree[:1])
+        rep = True
     if draw(st.integers(0, 5)) == 0:
         # now and then a long text node: the document grows beyond 100 characters
         tree = list(tree)
@@ -134,7 +176,8 @@ def _case(draw, mode):
         a = draw(st.integers(0, n))
         b = draw(st.integers(a, min(n, a + draw(st.sampled_from([12, 12, 12, 40])))))
         spans.append([a, b])
-    return {"tree": tree, "spans": spans, "mode": mode, "iter": draw(st.integers(0, 4)) == 0}
+    return {"tree": tree, "spans": spans, "mode": mode, "iter": draw(st.integers(0, 4)) == 0,
+            "dmp": draw(st.integers(0, 2)) != 0 and not (crafted and draw(st.booleans())), "rep": rep}
 
 
 def phases(tier):
